@@ -14,6 +14,9 @@ CLAIMED = {
  "C02": ("Bounded model checking, differential: the real Session.Parse and the real field getters are executed symbolically next to an independent RFC reference decoder / RFC-position extractors; for every frame of length 0..1536 (all contents, so every EtherType, protocol, port pair and length field) PayloadID, MACs, IPs, ports, presence and offsets of the IPv4/IPv6/UDP/TCP views, payload and the error verdict are asserted equal by SMT on every path.",
          "Trusted: go/ssa, gse semantics, z3, and the reference decoder in harness/root/c02_ref.go (short, written from the RFCs and the documented table). Getter coverage: IP4, IP6, UDP, TCP, ARP, ICMP/ICMPEcho, DNS header, DHCP4 fixed fields.",
          "DESIGN.md §4 C02", "differential bounded symbolic execution (implementation vs RFC reference decoder), SMT equality per path"),
+ "C20": ("Bounded model checking, differential: every fastlog scalar appender, MAC, IPv4/IPv6 (RFC 5952) rendering and three-field concatenation is executed symbolically from the real SSA with a symbolic cursor and arbitrary old buffer contents and compared byte for byte with reference renderers; array appenders are checked for staying inside the 2048-byte buffer with symbolic cursor and lengths up to 4096.",
+         "Trusted: go/ssa, gse semantics, z3, reference renderers (validated natively against net/netip on 200000 addresses in ./check selftest). Value coverage per evidence.bounds (one non-constant IPv6 group / MAC byte / IPv4 octet at a time). View String()/FastLog renderers are outside the claim.",
+         "DESIGN.md §4 C20", "differential bounded symbolic execution against reference renderers, SMT-decided buffer bounds"),
 }
 
 NOT_APPLICABLE = {
